@@ -46,9 +46,10 @@ func (d *defaultPacketLogger) LogRTPPacket(header *rtp.Header, payload []byte, a
 	select {
 	case d.rtpChan <- &rtpDump{
 		attributes: attributes,
+		// The packet is formatted asynchronously, after the caller got its buffers back.
 		packet: &rtp.Packet{
-			Header:  *header,
-			Payload: payload,
+			Header:  header.Clone(),
+			Payload: append([]byte(nil), payload...),
 		},
 	}:
 	case <-d.close:
